@@ -246,6 +246,52 @@ def run(rep, tier, prop="C10"):
         for name, kind, opts in case_list():
             n, fails = res[(tn, name)]
             rep.add(core.decided("%s/bounded/%s/%s" % (prop, name, tn), prop, not fails and n > 0, functions=(name.split("[")[0],), text="bounded stand-in: %s on %d directed operand tuples inside the documented domain" % (name, n), detail=dict(failures=fails, inputs=n), kind="bounded", solver="native-run", meta=dict(part="bounded", fails=fails, t=tn, case=name)))
+    # the documented domains of the overflow-repairing and fma-assuming variants, at their edges (directed, separate obligations)
+    import functional_algorithms.apmath as AP0
+    import functional_algorithms.floating_point_algorithms as FP0
+    import functional_algorithms.utils as U0
+
+    from vf.contracts.C11_bounded import rn as _rn
+
+    edge = {}
+    with warnings.catch_warnings(), numpy.errstate(all="ignore"):
+        warnings.simplefilter("ignore")
+        for tn in TYPES:
+            t = getattr(numpy, tn)
+            fi = numpy.finfo(t)
+            ctx = U0.NumpyContext(t)
+            ulp_top = numpy.ldexp(t(1), int(fi.maxexp) - 1 - int(fi.nmant))
+            bad = []
+            for k in (1, 2, 3, 7, 16, 33):
+                for y in (fi.max, fi.max - ulp_top * t(3)):
+                    x = -(ulp_top * t(k)) / t(2)
+                    for sx, sy in ((x, y), (-x, -y)):
+                        if not numpy.isfinite(_rn(t, F(sx) + F(sy))):
+                            continue
+                        r = FP0.add_2sum(ctx, sx, sy, fix_overflow=True)
+                        if not (numpy.isfinite(r[0]) and numpy.isfinite(r[1])) or F(r[0]) + F(r[1]) != F(sx) + F(sy):
+                            bad.append(dict(x=repr(sx), y=repr(sy), s=repr(r[0]), t=repr(r[1])))
+            edge[("add_2sum[fix_overflow=True]@top-of-range", tn)] = bad
+            bad = []
+            root = numpy.sqrt(fi.max)
+            for k in range(1, 40, 3):
+                x = root * t(1 - k * float(fi.eps))
+                y = root * t(1 - (k + 5) * float(fi.eps) * 3)
+                xy = F(x) * F(y)
+                if not numpy.isfinite(_rn(t, xy)):
+                    continue
+                r = AP0.two_prod(ctx, x, y, scale=True, fix_overflow=True)
+                if not (numpy.isfinite(r[0]) and numpy.isfinite(r[1])) or F(r[0]) + F(r[1]) != xy:
+                    bad.append(dict(x=repr(x), y=repr(y), h=repr(r[0]), l=repr(r[1])))
+            edge[("two_prod[scale=True,fix_overflow=True]@near-sqrt-largest", tn)] = bad
+            bad = []
+            for x, y in ((0.001, 1000.0), (1.5, -1000.25), (3e-3, 7.0), (-0.75, 513.0)):
+                r = AP0.two_sum(ctx, t(x), t(y), assume_fma=True)
+                if F(r[0]) + F(r[1]) != F(t(x)) + F(t(y)):
+                    bad.append(dict(x=repr(t(x)), y=repr(t(y)), s=repr(r[0]), t=repr(r[1])))
+            edge[("two_sum[assume_fma=True]@smaller-first-operand", tn)] = bad
+    for (name, tn), bad in sorted(edge.items()):
+        rep.add(core.decided("%s/bounded/edge/%s/%s" % (prop, name, tn), prop, not bad, functions=("floating_point_algorithms.add_2sum" if name.startswith("add") else "apmath." + name.split("[")[0],), text="bounded stand-in (directed): %s returns an exact pair" % name, detail=dict(failures=bad[:3]), kind="bounded", solver="native-run", meta=dict(part="bounded", fails=bad[:3], t="-", case="edge/" + name)))
     # option combinations must at least return a pair (finite cases)
     import functional_algorithms.floating_point_algorithms as FP
     import functional_algorithms.utils as U
@@ -274,4 +320,6 @@ def replay(o):
     if meta.get("part") != "bounded":
         return None
     fails = meta.get("fails") or []
+    if meta.get("t") == "-":
+        return dict(replayed=bool(fails), failing_inputs=fails, witness_class=str(meta.get("case")))
     return dict(replayed=bool(fails), failing_inputs=fails, witness_class="%s %s" % (meta.get("case"), meta.get("t")))
